@@ -10,6 +10,7 @@ import (
 	"math"
 	"slices"
 	"sort"
+	"strings"
 
 	"github.com/spq/pkappa2/internal/query"
 	"github.com/spq/pkappa2/internal/tools/bitmask"
@@ -204,6 +205,24 @@ regexElements:
 	return nil
 }
 
+// quoteBytes returns an expression matching exactly the bytes of s. The
+// expression text is parsed as UTF-8 whose runes up to 0xff stand for single
+// bytes, so bytes >= 0x80 have to be written as escapes.
+func quoteBytes(s string) string {
+	quoted := strings.Builder{}
+	start := 0
+	for i := 0; i < len(s); i++ {
+		if s[i] < 0x80 {
+			continue
+		}
+		quoted.WriteString(binaryregexp.QuoteMeta(s[start:i]))
+		fmt.Fprintf(&quoted, `\x%02x`, s[i])
+		start = i + 1
+	}
+	quoted.WriteString(binaryregexp.QuoteMeta(s[start:]))
+	return quoted.String()
+}
+
 func (dcc *dataConditionsContainer) finalize(r *Reader, queryPartIndex int, previousResults map[string]resultData, converters map[string]ConverterAccess) ([]func(sc *searchContext, s *stream) (bool, error), error) {
 	if len(dcc.conditions) == 0 {
 		return alwaysSuccess, nil
@@ -257,7 +276,7 @@ func (dcc *dataConditionsContainer) finalize(r *Reader, queryPartIndex int, prev
 					if d.queryParts.IsSet(uint(queryPartIndex)) && d.name != v {
 						continue
 					}
-					quoted += binaryregexp.QuoteMeta(d.value) + "|"
+					quoted += quoteBytes(d.value) + "|"
 				}
 				if quoted == "" {
 					badVarData[vdi] = struct{}{}
@@ -708,7 +727,7 @@ func (ps *progressGroup) prepare(r *regex, pIdx int, e *query.DataConditionEleme
 			if !ok {
 				return nil, fmt.Errorf("variable %q not defined", v.Name)
 			}
-			content = binaryregexp.QuoteMeta(content)
+			content = quoteBytes(content)
 		} else {
 			psq := possibleSubQueries[v.SubQuery]
 			vIdx := psq.variableIndex[v.Name]
